@@ -243,6 +243,31 @@ pub fn run(tier: &str, seed: u64, report: &mut Report) {
                         remove_copy(&arch);
                     }
                 }
+                // two RELATED failures: listing a kept version's index fails (not with not-found) and so does the stat of
+                // one of its hunks — a fallback that probes hunks one by one must not take the second failure for the end
+                let kept: Vec<u32> = all_bands(&sc.pre_state).into_iter().filter(|b| !del.contains(b)).collect();
+                let pre_map = state_map(&sc.pre_state);
+                for kb in kept.iter().take(2) {
+                    let hunks: Vec<String> = pre_map.keys().filter(|k| k.starts_with(&format!("{}/i/", band_name(*kb))) && k.matches('/').count() == 3).cloned().collect();
+                    for list_path in [format!("{}/i", band_name(*kb)), format!("{}/i/00000", band_name(*kb))] {
+                        for h in hunks.iter().take(3) {
+                            for (lk, sk) in [("pd", "ot"), ("ot", "pd")] {
+                                let arch = fresh_copy(&sc, "del2f");
+                                let faults = vec![fault_spec("list", &list_path, 0, lk), fault_spec("stat", h, 0, sk), fault_spec("read", h, 0, sk)];
+                                let r = real_delete(&arch, &del, false, false, IceptConfig { faults: faults.clone(), ..Default::default() });
+                                let (post, _) = abstract_archive(&arch);
+                                let case = json!({"scenario": case_id, "plan": plan, "faults": [format!("list {list_path} fails ({lk})"), format!("stat/read {h} fails ({sk})")]});
+                                if r.result.starts_with("result panic") {
+                                    report.oracle_fail("delete:fault-panic", case.clone(), "failing reads crashed the delete", json!(trunc(&r.result)));
+                                }
+                                kept_versions_restore(report, "delete:read-fault-harmed-kept-version", &case, &sc, &arch, &post, &del);
+                                report.case(&format!("{case_seed}/{mask}/2f/{list_path}/{h}/{lk}"), true);
+                                report.hit("plan:two-related-read-faults");
+                                remove_copy(&arch);
+                            }
+                        }
+                    }
+                }
             }
         }
         if sidx == 0 {
